@@ -111,22 +111,118 @@ func BlockIf(b *ssa.BasicBlock) *ssa.If {
 type Guard struct {
 	If  *ssa.If
 	Idx int // 0 = true edge, 1 = false edge
+	// Threaded: the condition is a boolean flag merged from constants and the
+	// incoming edge that sets it was resolved; the guards of that edge are listed
+	// as well and say what the flag stands for.
+	Threaded bool
 }
 
 func Guards(fn *ssa.Function, target *ssa.BasicBlock) []Guard {
 	var out []Guard
-	for _, b := range fn.Blocks {
-		iff := BlockIf(b)
-		if iff == nil {
-			continue
-		}
-		for idx := 0; idx < 2; idx++ {
-			if EdgeDominates(b, idx, target) {
-				out = append(out, Guard{If: iff, Idx: idx})
+	seen := map[Guard]bool{}
+	var collect func(target *ssa.BasicBlock, depth int)
+	collect = func(target *ssa.BasicBlock, depth int) {
+		for _, b := range fn.Blocks {
+			iff := BlockIf(b)
+			if iff == nil {
+				continue
+			}
+			for idx := 0; idx < 2; idx++ {
+				if !EdgeDominates(b, idx, target) {
+					continue
+				}
+				g := Guard{If: iff, Idx: idx}
+				if seen[g] {
+					continue
+				}
+				seen[g] = true
+				if _, _, ok := flagSource(iff, idx == 0); ok && depth < 4 {
+					out = append(out, Guard{If: iff, Idx: idx, Threaded: true})
+				} else {
+					out = append(out, g)
+				}
+				// jump threading: the condition is a boolean flag merged from
+				// constants (found := false; ...; found = true; ...; if found).
+				// When exactly one incoming edge carries the value this edge
+				// needs, every path through the edge came along that incoming
+				// edge, so whatever guards it guards the target as well.
+				if depth < 4 {
+					if pb, pi, ok := flagSource(iff, idx == 0); ok {
+						if pif := BlockIf(pb); pif != nil && len(pb.Succs) == 2 && pb.Succs[0] != pb.Succs[1] {
+							tg := Guard{If: pif, Idx: pi}
+							if !seen[tg] {
+								seen[tg] = true
+								out = append(out, tg)
+							}
+						}
+						collect(pb, depth+1)
+					}
+				}
 			}
 		}
 	}
+	collect(target, 0)
 	return out
+}
+
+// flagSource: iff tests (through NOT) a phi of boolean constants (phis of such phis
+// included); when exactly one incoming edge carries the value that sends control
+// along the edge with the given truth, it returns that edge as (predecessor block,
+// index of the phi's block among the predecessor's successors).
+func flagSource(iff *ssa.If, truth bool) (*ssa.BasicBlock, int, bool) {
+	v := iff.Cond
+	for {
+		if u, ok := v.(*ssa.UnOp); ok && u.Op == token.NOT {
+			truth = !truth
+			v = u.X
+			continue
+		}
+		break
+	}
+	phi, ok := v.(*ssa.Phi)
+	if !ok {
+		return nil, 0, false
+	}
+	type src struct {
+		pred, blk *ssa.BasicBlock
+	}
+	var match []src
+	opaque := false
+	seen := map[*ssa.Phi]bool{}
+	var walk func(p *ssa.Phi)
+	walk = func(p *ssa.Phi) {
+		if seen[p] {
+			return
+		}
+		seen[p] = true
+		for i, e := range p.Edges {
+			switch e := e.(type) {
+			case *ssa.Const:
+				if bv, ok := BoolConst(e); ok {
+					if bv == truth {
+						match = append(match, src{p.Block().Preds[i], p.Block()})
+					}
+				} else {
+					opaque = true
+				}
+			case *ssa.Phi:
+				walk(e)
+			default:
+				opaque = true
+			}
+		}
+	}
+	walk(phi)
+	if opaque || len(match) != 1 {
+		return nil, 0, false
+	}
+	m := match[0]
+	for i, s := range m.pred.Succs {
+		if s == m.blk {
+			return m.pred, i, true
+		}
+	}
+	return nil, 0, false
 }
 
 // IntConst returns the integer value of a constant.
